@@ -1,67 +1,220 @@
 ------------------------------ MODULE MpscChan ------------------------------
-(* DRAFT (round 0).  src/sync/mpsc.rs InnerQueue: send / recv(dur) / try_recv / drop_chan /
-   drop_port, with a thread or coroutine receiver (AbsBlocker token; a timed recv may return
-   Timeout at any moment).  The queue is the L0 contract (atomic FIFO). *)
-EXTENDS Naturals, Sequences, FiniteSets, TLC
-CONSTANTS Senders, NMsg,        \* each sender sends NMsg messages, then drops
-          Timed,                \* BOOLEAN: receiver uses recv_timeout (park may time out)
-          RegisterFirst,        \* TRUE = as written (store to_wake, then re-check the queue)
-          RepopOnDisc           \* TRUE = as written (re-pop after reading channels = 0)
-VARIABLES queue, toWake, token, channels, pcS, kS, pcR, got, ret, timeouts
-vars == <<queue, toWake, token, channels, pcS, kS, pcR, got, ret, timeouts>>
-Init == /\ queue = <<>> /\ toWake = FALSE /\ token = FALSE /\ channels = Cardinality(Senders)
-        /\ pcS = [s \in Senders |-> IF NMsg > 0 THEN "send.push" ELSE "drop.dec"] /\ kS = [s \in Senders |-> 0]
-        /\ pcR = (IF RegisterFirst THEN "recv.reg" ELSE "recv.pop") /\ got = <<>> /\ ret = "none" /\ timeouts = 0
-Total == NMsg * Cardinality(Senders)
-GotoS(s, l) == pcS' = [pcS EXCEPT ![s] = l]
-SPush(s) == /\ pcS[s] = "send.push" /\ queue' = Append(queue, <<s, kS[s] + 1>>) /\ kS' = [kS EXCEPT ![s] = @ + 1]
-            /\ GotoS(s, "send.take") /\ UNCHANGED <<toWake, token, channels, pcR, got, ret, timeouts>>
-STake(s) == /\ pcS[s] \in {"send.take", "drop.take"}
-            /\ IF toWake THEN toWake' = FALSE /\ token' = TRUE ELSE UNCHANGED <<toWake, token>>
-            /\ GotoS(s, IF pcS[s] = "drop.take" THEN "done" ELSE IF kS[s] < NMsg THEN "send.push" ELSE "drop.dec")
-            /\ UNCHANGED <<queue, channels, kS, pcR, got, ret, timeouts>>
-SDropDec(s) == /\ pcS[s] = "drop.dec" /\ channels' = channels - 1
-               /\ GotoS(s, IF channels = 1 THEN "drop.take" ELSE "done")
-               /\ UNCHANGED <<queue, toWake, token, kS, pcR, got, ret, timeouts>>
-(* receiver: Receiver::recv loops over InnerQueue::recv *)
-Finish(r) == ret' = r /\ pcR' = "done"
-AfterGot == IF Len(got) + 1 >= Total + 1 THEN "done" ELSE (IF RegisterFirst THEN "recv.reg" ELSE "recv.pop")
-RReg == /\ pcR = "recv.reg" /\ toWake' = TRUE /\ token' = FALSE /\ pcR' = "recv.pop"
-        /\ UNCHANGED <<queue, channels, pcS, kS, got, ret, timeouts>>
-RPop == /\ pcR \in {"recv.pop", "recv.pop_after_park"}
-        /\ IF queue # <<>>
-             THEN /\ queue' = Tail(queue) /\ got' = Append(got, Head(queue))
-                  /\ toWake' = (IF pcR = "recv.pop" THEN FALSE ELSE toWake)      \* to_wake.clear() on the no-park path
-                  /\ pcR' = (IF RegisterFirst THEN "recv.reg" ELSE "recv.pop") /\ UNCHANGED ret
-             ELSE /\ UNCHANGED <<queue, got, toWake, ret>> /\ pcR' = (IF pcR = "recv.pop" THEN "recv.load_ch" ELSE "recv.load_ch2")
-        /\ UNCHANGED <<token, channels, pcS, kS, timeouts>>
-RLoadCh == /\ pcR \in {"recv.load_ch", "recv.load_ch2"}
-           /\ IF channels > 0
-                THEN pcR' = (IF pcR = "recv.load_ch" THEN (IF RegisterFirst THEN "recv.park" ELSE "recv.reg_late")
-                                                     ELSE (IF RegisterFirst THEN "recv.reg" ELSE "recv.pop"))   \* Empty -> loop
-                     /\ UNCHANGED ret
-                ELSE IF RepopOnDisc THEN pcR' = "recv.repop" /\ UNCHANGED ret ELSE Finish("Disconnected")
-           /\ UNCHANGED <<queue, toWake, token, channels, pcS, kS, got, timeouts>>
-RRepop == /\ pcR = "recv.repop"
-          /\ IF queue # <<>> THEN queue' = Tail(queue) /\ got' = Append(got, Head(queue))
-                                  /\ pcR' = (IF RegisterFirst THEN "recv.reg" ELSE "recv.pop") /\ UNCHANGED ret
-                             ELSE Finish("Disconnected") /\ UNCHANGED <<queue, got>>
-          /\ toWake' = FALSE
-          /\ UNCHANGED <<token, channels, pcS, kS, timeouts>>
-RRegLate == /\ pcR = "recv.reg_late" /\ toWake' = TRUE /\ token' = FALSE /\ pcR' = "recv.park"   \* mutant order
-            /\ UNCHANGED <<queue, channels, pcS, kS, got, ret, timeouts>>
-RParkOk == /\ pcR = "recv.park" /\ token /\ token' = FALSE /\ pcR' = "recv.pop_after_park"
-           /\ UNCHANGED <<queue, toWake, channels, pcS, kS, got, ret, timeouts>>
-RParkTimeout == /\ pcR = "recv.park" /\ Timed /\ timeouts < 2 /\ token' = FALSE /\ timeouts' = timeouts + 1
-                /\ pcR' = "recv.pop_after_park"
-                /\ UNCHANGED <<queue, toWake, channels, pcS, kS, got, ret>>
-AllOver == pcR = "done" /\ \A s \in Senders : pcS[s] = "done"
-Next == \/ \E s \in Senders : SPush(s) \/ STake(s) \/ SDropDec(s)
-        \/ RReg \/ RPop \/ RLoadCh \/ RRepop \/ RRegLate \/ RParkOk \/ RParkTimeout
-        \/ (AllOver /\ UNCHANGED vars)
+(* Literal model of src/sync/mpsc.rs (InnerQueue send / recv / try_recv / recv_timeout, clone and
+   drop of Sender, drop of Receiver).  pc[a] = name of the verification point the actor is stopped
+   at; labels without a dot are internal.  The queue is the L0 contract (atomic FIFO, C03); the
+   receiver's Blocker is the AbsBlocker (C02) with real suspension, Tick and Cancel as in
+   Semaphore.tla (plain Blocker: a cancelled coroutine unwinds out of park, nothing is forwarded).
+
+   Prog[a] is a sequence over  sender ops  "send" | "clone" | "drop"
+                           and receiver ops "recv" | "try" | "trecv" | "rdrop".
+   There is one receiver actor (Rx); every other actor starts with one Sender handle.
+   Switch (TRUE = code as written): RepopOnDisc (re-pop after reading channels = 0).          *)
+EXTENDS Integers, FiniteSets, Sequences, TLC
+
+CONSTANTS Actors, Rx, Victims, Prog, Dur, RepopOnDisc
+
+VARIABLES queue, toWake, channels, portDropped, token,
+          pc, ip, w, stage, mode, nsent, rret,
+          cancelled, parked, res, deadline, start, now, timerHost,
+          pushed, sentOk, got, dropped, discAt
+vars == <<queue, toWake, channels, portDropped, token, pc, ip, w, stage, mode, nsent, rret,
+          cancelled, parked, res, deadline, start, now, timerHost, pushed, sentOk, got, dropped, discAt>>
+
+MaxOps == 4
+Blockers == {Rx} \X (1..MaxOps) \X (1..3)       \* a fresh Blocker per InnerQueue::recv call
+NoB == <<"none", 0, 0>>
+Op(a) == Prog[a][ip[a]]
+FirstPc(op) == CASE op = "send" -> "chan.send.load_port" [] op = "clone" -> "chan.clone.inc"
+                 [] op = "drop" -> "chan.drop.dec" [] op = "recv" -> "chan.recv.reg"
+                 [] op = "rdrop" -> "chan.port.store" [] OTHER -> "chan.try.pop"
+StartPc(a) == IF Len(Prog[a]) = 0 THEN "done" ELSE FirstPc(Prog[a][1])
+Senders == Actors \ {Rx}
+
+Init ==
+  /\ queue = <<>> /\ toWake = NoB /\ channels = Cardinality(Senders) /\ portDropped = FALSE
+  /\ token = [b \in Blockers |-> FALSE]
+  /\ ip = [a \in Actors |-> 1] /\ pc = [a \in Actors |-> StartPc(a)]
+  /\ w = [a \in Actors |-> NoB]
+  /\ stage = 1          \* which InnerQueue::recv call of the current receiver op (fresh blocker each)
+  /\ mode = "plain"     \* which try_recv: "plain" | "first" (re-check after registering) | "after" (after the park)
+  /\ nsent = [a \in Actors |-> 0]
+  /\ rret = "none"      \* result of the receiver's last operation: "none"|"Ok"|"Empty"|"Disconnected"|"Timeout"
+  /\ cancelled = [a \in Actors |-> FALSE] /\ parked = [a \in Actors |-> FALSE]
+  /\ res = [a \in Actors |-> "none"] /\ deadline = 0 /\ start = 0 /\ now = 0 /\ timerHost = "none"
+  /\ pushed = {} /\ sentOk = {} /\ got = <<>> /\ dropped = {} /\ discAt = <<>>
+
+MeB == <<Rx, ip[Rx], stage>>
+Goto(a, l) == pc' = [pc EXCEPT ![a] = l]
+UNCH_Q == UNCHANGED <<queue, toWake, channels, portDropped>>
+UNCH_T == UNCHANGED <<deadline, start, now, timerHost>>
+UNCH_H == UNCHANGED <<pushed, sentOk, got, dropped, discAt>>
+UNCH_P == UNCHANGED <<cancelled, parked, res>>
+UNCH_R == UNCHANGED <<stage, mode, rret>>
+LeaveTimer(a) == timerHost' = IF timerHost = a THEN "none" ELSE timerHost
+
+(* ------------------------------- senders ------------------------------- *)
+SendLoadPort(a) ==
+  /\ pc[a] = "chan.send.load_port"
+  /\ Goto(a, IF portDropped THEN "next" ELSE "chan.send.push")        \* Err(t): the value comes back
+  /\ UNCHANGED <<token, ip, w, nsent>> /\ UNCH_Q /\ UNCH_T /\ UNCH_H /\ UNCH_P /\ UNCH_R
+SendPush(a) ==
+  /\ pc[a] = "chan.send.push"
+  /\ LET m == <<a, nsent[a] + 1>> IN queue' = Append(queue, m) /\ pushed' = pushed \cup {m}
+  /\ nsent' = [nsent EXCEPT ![a] = @ + 1] /\ Goto(a, "chan.send.take")
+  /\ UNCHANGED <<toWake, channels, portDropped, token, ip, w, sentOk, got, dropped, discAt>> /\ UNCH_T /\ UNCH_P /\ UNCH_R
+SendTake(a) ==
+  /\ pc[a] = "chan.send.take"
+  /\ w' = [w EXCEPT ![a] = toWake] /\ toWake' = NoB
+  /\ sentOk' = sentOk \cup {<<a, nsent[a]>>}
+  /\ Goto(a, IF toWake # NoB THEN "blk.unpark" ELSE "next")
+  /\ UNCHANGED <<queue, channels, portDropped, token, ip, nsent, pushed, got, dropped, discAt>> /\ UNCH_T /\ UNCH_P /\ UNCH_R
+\* Blocker::unpark(): a receiver really suspended on this blocker is resumed at once, else token
+Unpark(a) ==
+  /\ pc[a] = "blk.unpark"
+  /\ LET b == w[a] IN
+       IF pc[Rx] = "parked" /\ parked[Rx] /\ MeB = b
+         THEN /\ parked' = [parked EXCEPT ![Rx] = FALSE] /\ res' = [res EXCEPT ![Rx] = "Ok"]
+              /\ pc' = [pc EXCEPT ![a] = "next", ![Rx] = "blk.park.ret"] /\ UNCHANGED token
+         ELSE /\ token' = [token EXCEPT ![b] = TRUE] /\ Goto(a, "next") /\ UNCHANGED <<parked, res>>
+  /\ UNCHANGED <<ip, w, nsent, cancelled>> /\ UNCH_Q /\ UNCH_T /\ UNCH_H /\ UNCH_R
+CloneInc(a) ==
+  /\ pc[a] = "chan.clone.inc" /\ channels' = channels + 1 /\ Goto(a, "next")
+  /\ UNCHANGED <<queue, toWake, portDropped, token, ip, w, nsent>> /\ UNCH_T /\ UNCH_H /\ UNCH_P /\ UNCH_R
+\* drop of a Sender: fetch_sub; the last one takes to_wake in the same breath (no point in between)
+DropDec(a) ==
+  /\ pc[a] = "chan.drop.dec"
+  /\ channels' = channels - 1
+  /\ IF channels = 1
+       THEN /\ w' = [w EXCEPT ![a] = toWake] /\ toWake' = NoB
+            /\ Goto(a, IF toWake # NoB THEN "blk.unpark" ELSE "next")
+       ELSE /\ UNCHANGED <<w, toWake>> /\ Goto(a, "next")
+  /\ UNCHANGED <<queue, portDropped, token, ip, nsent>> /\ UNCH_T /\ UNCH_H /\ UNCH_P /\ UNCH_R
+
+(* ------------------------------- receiver ------------------------------- *)
+Deliver(m) == got' = Append(got, m)
+RecvReg ==
+  /\ pc[Rx] = "chan.recv.reg"
+  /\ toWake' = MeB /\ mode' = "first" /\ Goto(Rx, "chan.try.pop")
+  /\ UNCHANGED <<queue, channels, portDropped, token, ip, w, stage, nsent, rret>> /\ UNCH_T /\ UNCH_H /\ UNCH_P
+\* a value or Disconnected: the re-check path clears to_wake first
+AfterResult == IF mode = "first" THEN "chan.recv.clear" ELSE "next"
+\* what an Empty result of try_recv means
+OnEmpty == CASE mode = "first" -> "blk.park"
+             [] mode = "after" -> "recv.loop"
+             [] Op(Rx) = "trecv" -> "trecv.begin"       \* the optimistic try_recv of recv_timeout
+             [] OTHER -> "next"
+TryPop ==
+  /\ pc[Rx] = "chan.try.pop"
+  /\ IF queue # <<>>
+       THEN queue' = Tail(queue) /\ Deliver(Head(queue)) /\ rret' = "Ok" /\ Goto(Rx, AfterResult)
+       ELSE UNCHANGED <<queue, got, rret>> /\ Goto(Rx, "chan.try.load_ch")
+  /\ UNCHANGED <<toWake, channels, portDropped, token, ip, w, stage, mode, nsent, pushed, sentOk, dropped, discAt>> /\ UNCH_T /\ UNCH_P
+TryLoadCh ==
+  /\ pc[Rx] = "chan.try.load_ch"
+  /\ IF channels > 0
+       THEN Goto(Rx, OnEmpty) /\ rret' = "Empty" /\ UNCHANGED discAt
+       ELSE IF RepopOnDisc THEN Goto(Rx, "chan.try.repop") /\ UNCHANGED <<rret, discAt>>
+            ELSE rret' = "Disconnected" /\ discAt' = queue /\ Goto(Rx, AfterResult)
+  /\ UNCHANGED <<token, ip, w, stage, mode, nsent, pushed, sentOk, got, dropped>> /\ UNCH_Q /\ UNCH_T /\ UNCH_P
+TryRepop ==
+  /\ pc[Rx] = "chan.try.repop"
+  /\ IF queue # <<>>
+       THEN queue' = Tail(queue) /\ Deliver(Head(queue)) /\ rret' = "Ok" /\ UNCHANGED discAt
+       ELSE UNCHANGED <<queue, got>> /\ rret' = "Disconnected" /\ discAt' = queue
+  /\ Goto(Rx, AfterResult)
+  /\ UNCHANGED <<toWake, channels, portDropped, token, ip, w, stage, mode, nsent, pushed, sentOk, dropped>> /\ UNCH_T /\ UNCH_P
+RecvClear ==
+  /\ pc[Rx] = "chan.recv.clear"
+  /\ toWake' = NoB /\ Goto(Rx, "next")
+  /\ UNCHANGED <<queue, channels, portDropped, token, ip, w, nsent>> /\ UNCH_T /\ UNCH_H /\ UNCH_P /\ UNCH_R
+\* internal: recv_timeout found Empty: deadline = now + timeout, then InnerQueue::recv(Some(timeout))
+TrecvBegin ==
+  /\ pc[Rx] = "trecv.begin"
+  /\ start' = now /\ stage' = 2 /\ Goto(Rx, "chan.recv.reg")
+  /\ UNCHANGED <<token, ip, w, mode, nsent, rret, deadline, now, timerHost>> /\ UNCH_Q /\ UNCH_H /\ UNCH_P
+ParkEnter ==
+  /\ pc[Rx] = "blk.park"
+  /\ IF token[MeB]
+       THEN /\ token' = [token EXCEPT ![MeB] = FALSE] /\ res' = [res EXCEPT ![Rx] = "Ok"]
+            /\ Goto(Rx, "blk.park.ret") /\ UNCHANGED <<parked, deadline, timerHost>>
+       ELSE IF cancelled[Rx]
+         THEN /\ res' = [res EXCEPT ![Rx] = "Canceled"] /\ Goto(Rx, "dead")     \* check_cancel panics inside park
+              /\ LeaveTimer(Rx) /\ UNCHANGED <<token, parked, deadline>>
+         ELSE /\ parked' = [parked EXCEPT ![Rx] = TRUE] /\ Goto(Rx, "parked")
+              /\ deadline' = IF Op(Rx) = "trecv" THEN now + Dur ELSE 0
+              /\ LeaveTimer(Rx) /\ UNCHANGED <<token, res>>
+  /\ UNCHANGED <<ip, w, nsent, cancelled, start, now>> /\ UNCH_Q /\ UNCH_H /\ UNCH_R
+\* after the park (whatever it returned): try_recv again
+ParkReturn ==
+  /\ pc[Rx] = "blk.park.ret"
+  /\ token' = [token EXCEPT ![MeB] = FALSE]
+  /\ mode' = "after" /\ Goto(Rx, "chan.try.pop")
+  /\ UNCHANGED <<ip, w, stage, nsent, rret>> /\ UNCH_Q /\ UNCH_T /\ UNCH_H /\ UNCH_P
+\* internal: InnerQueue::recv returned Empty: Receiver::recv loops; recv_max_until checks the deadline
+RecvLoop ==
+  /\ pc[Rx] = "recv.loop"
+  /\ IF Op(Rx) = "trecv" /\ now >= start + Dur
+       THEN rret' = "Timeout" /\ Goto(Rx, "next") /\ UNCHANGED stage
+       ELSE stage' = (IF stage < 3 THEN stage + 1 ELSE stage) /\ Goto(Rx, "chan.recv.reg") /\ UNCHANGED rret
+  /\ UNCHANGED <<token, ip, w, mode, nsent>> /\ UNCH_Q /\ UNCH_T /\ UNCH_H /\ UNCH_P
+\* drop of the Receiver: port_dropped, then the queue is drained (values dropped)
+PortStore ==
+  /\ pc[Rx] = "chan.port.store"
+  /\ portDropped' = TRUE /\ Goto(Rx, "port.drain")
+  /\ UNCHANGED <<queue, toWake, channels, token, ip, w, nsent>> /\ UNCH_T /\ UNCH_H /\ UNCH_P /\ UNCH_R
+PortDrain ==
+  /\ pc[Rx] = "port.drain"
+  /\ dropped' = dropped \cup {queue[i] : i \in DOMAIN queue} /\ queue' = <<>> /\ Goto(Rx, "next")
+  /\ UNCHANGED <<toWake, channels, portDropped, token, ip, w, nsent, pushed, sentOk, got, discAt>> /\ UNCH_T /\ UNCH_P /\ UNCH_R
+
+NextOp(a) ==
+  /\ pc[a] = "next"
+  /\ IF ip[a] < Len(Prog[a])
+       THEN ip' = [ip EXCEPT ![a] = ip[a] + 1] /\ Goto(a, FirstPc(Prog[a][ip[a] + 1])) /\ UNCHANGED timerHost
+       ELSE UNCHANGED ip /\ Goto(a, "done") /\ LeaveTimer(a)
+  /\ w' = [w EXCEPT ![a] = NoB]
+  /\ stage' = (IF a = Rx THEN 1 ELSE stage) /\ mode' = (IF a = Rx THEN "plain" ELSE mode)
+  /\ UNCHANGED <<token, nsent, rret, deadline, start, now>> /\ UNCH_Q /\ UNCH_H /\ UNCH_P
+
+Tick ==
+  /\ pc[Rx] = "parked" /\ parked[Rx] /\ deadline > 0 /\ timerHost = "none"
+  /\ now' = deadline /\ timerHost' = Rx
+  /\ parked' = [parked EXCEPT ![Rx] = FALSE] /\ res' = [res EXCEPT ![Rx] = "Timeout"]
+  /\ Goto(Rx, "blk.park.ret")
+  /\ UNCHANGED <<token, ip, w, nsent, cancelled, deadline, start>> /\ UNCH_Q /\ UNCH_H /\ UNCH_R
+Cancel(a) ==
+  /\ a \in Victims /\ ~cancelled[a] /\ pc[a] \notin {"done", "dead"}
+  /\ cancelled' = [cancelled EXCEPT ![a] = TRUE]
+  /\ IF pc[a] = "parked" /\ ~token[MeB]
+       THEN /\ parked' = [parked EXCEPT ![a] = FALSE] /\ res' = [res EXCEPT ![a] = "Canceled"]
+            /\ pc' = [pc EXCEPT ![a] = "dead"]          \* resumes, check_cancel panics, unwinds
+       ELSE UNCHANGED <<parked, res, pc>>
+  /\ UNCHANGED <<token, ip, w, nsent>> /\ UNCH_Q /\ UNCH_T /\ UNCH_H /\ UNCH_R
+
+RStep == RecvReg \/ TryPop \/ TryLoadCh \/ TryRepop \/ RecvClear \/ ParkEnter \/ ParkReturn \/ PortStore
+Step(a) == \/ SendLoadPort(a) \/ SendPush(a) \/ SendTake(a) \/ Unpark(a) \/ CloneInc(a) \/ DropDec(a)
+           \/ (a = Rx /\ RStep)
+Internal(a) == NextOp(a) \/ (a = Rx /\ (TrecvBegin \/ RecvLoop \/ PortDrain))
+InternalPcs == {"next", "trecv.begin", "recv.loop", "port.drain"}
+Obs(a) == -1
+
+Finished(a) == pc[a] \in {"done", "dead"}
+\* a recv() with senders alive that never send blocks for ever by specification
+LegitParked == pc[Rx] = "parked" /\ ~token[MeB] /\ deadline = 0 /\ channels > 0 /\ Rx \notin Victims
+Terminal == (\A a \in Actors : Finished(a) \/ (a = Rx /\ LegitParked)) /\ UNCHANGED vars
+Next == (\E a \in Actors : Step(a) \/ Internal(a) \/ Cancel(a)) \/ Tick \/ Terminal
 Spec == Init /\ [][Next]_vars
-DeliveredOnce == Cardinality({got[i] : i \in DOMAIN got}) = Len(got)
+-----------------------------------------------------------------------------
+GotSet == {got[i] : i \in DOMAIN got}
+DeliveredOnce  == Cardinality(GotSet) = Len(got) /\ GotSet \cap dropped = {}
+NoInvented     == GotSet \subseteq pushed
 PerSenderOrder == \A i, j \in DOMAIN got : (i < j /\ got[i][1] = got[j][1]) => got[i][2] < got[j][2]
-DrainThenDisconnected == ret = "Disconnected" => Len(got) = Total
-\* WokenBySend / NoHangAfterLastSender: TLC deadlock check
+\* Disconnected is reported only after the queue has been drained and every sender is gone
+DrainThenDisconnected == (rret = "Disconnected" => (discAt = <<>> /\ channels = 0))
+\* at the end every value whose send returned Ok was received or dropped with the port
+NothingLost == (\A a \in Actors : Finished(a)) =>
+                 (sentOk \subseteq (GotSet \cup dropped \cup {queue[i] : i \in DOMAIN queue}))
+\* InnerQueue::drop asserts that no waker is left registered when the channel is freed
+NoStaleWaker == (\A a \in Actors : Finished(a)) => toWake = NoB
+\* WokenBySend / NoHangAfterLastSender: deadlock-freedom (Terminal is the only legitimate rest)
 =============================================================================
